@@ -10,6 +10,9 @@ def gen_program(rng, well_behaved=True, allow_fail=True, allow_file=True):
     p = {}
     bodyless = rng.randrange(8) == 0
     p["status"] = rng.choice(BODYLESS) if bodyless else rng.choice(STATUSES)
+    if bodyless and rng.randrange(4) == 0:
+        # an application that switches protocols through its WSGI response: a 1xx status has no body and no framing of its own
+        p["status"] = "101 Switching Protocols"
     headers = [["Content-Type", rng.choice(["text/plain", "application/octet-stream"])]]
     if rng.randrange(3) == 0:
         headers.append(["X-App", rng.choice(["1", "caf\xe9", "a b", ""])])
